@@ -1,4 +1,4 @@
-(* Properties/Findings.v — the three genuine defects found in the pinned code and repaired by
+(* Properties/Findings.v — the four genuine defects found in the pinned code and repaired by
    "fix:" commits in /repo (KNOWN_FINDINGS.json), kept as small executable definitions of the
    PRE-FIX behaviour with machine-checked witnesses that the property fails for them.  The
    models used by the checks follow the repaired source; these definitions exist so that a
@@ -68,6 +68,29 @@ Example D3_refuted :
   t_root t' = t_root outer /\ nonzero (t_refc t') <> nonzero (t_refc outer).
 Proof. vm_compute. split; [reflexivity|discriminate]. Qed.
 
+(* D4 (C05, C01): ScratchDB.batch_commit pushed deletes with wrapped_db.pop(key, None).  When the wrapped
+   database is itself a ScratchDB — a squash_changes block opened on a batch trie — there is no pop():
+   committing an inner block whose buffer holds a DELETED marker raised AttributeError (tag 99), although
+   the block had exited normally. *)
+Fixpoint sreplay_prefix (do_deletes : bool) (c : amap (option bytes)) (s : scratch) : result scratch :=
+  match c with
+  | [] => Ok s
+  | (k, Some v) :: c' => sreplay_prefix do_deletes c' (sset s k v)
+  | (k, None) :: c' => if do_deletes then Err (Exn 99 []) else sreplay_prefix do_deletes c' s
+  end.
+
+Example D4_refuted :
+  let outer := run_ops false [OSet (B 2 0x0101) (repeat_byte x61 40); OSet (B 2 0x0102) (repeat_byte x62 40)] in
+  let b1 := fst (hstep (batch_begin outer) (OSet (B 1 0x02) (repeat_byte x63 40))) in
+  let b2 := fold_left (fun t o => fst (hstep t o))
+              [OSet (B 1 0x03) (repeat_byte x64 40); ODelete (B 2 0x0101)] (batch_begin b1) in
+  sreplay_prefix (t_prune b1) (cache (inner_scratch b2)) (inner_scratch b1) = Err (Exn 99 [])   (* pre-fix: raises *)
+  /\ (let '(r, b1') := batch_commit keccak256 BNH b1 b2 in                                       (* repaired *)
+      r = Ok tt /\ fst (get BNH (B 1 0x03) b1') = Ok (repeat_byte x64 40)
+      /\ fst (get BNH (B 2 0x0101) b1') = Ok [] /\ fst (get BNH (B 1 0x02) b1') = Ok (repeat_byte x63 40)).
+Proof. vm_compute. repeat split; reflexivity. Qed.
+
 Print Assumptions D1_refuted.
 Print Assumptions D2_refuted.
 Print Assumptions D3_refuted.
+Print Assumptions D4_refuted.
